@@ -36,3 +36,127 @@ Qed.
 (* sequence numbers strictly increase along the log, across reopen and checkpoint *)
 Theorem C15_seq_strict : forall ops, StronglySorted N.lt (map seq (appended ops)).
 Proof. exact appended_seq_strict. Qed.
+
+(* a crash that leaves only the first k bytes of the newest file, for EVERY k: replay never
+   fails and delivers exactly the records of the older files followed by the longest prefix
+   of whole records of the newest file ([fit k], characterised by C15_fit_longest) *)
+Theorem C15_torn : forall ops, ops_ok ops ->
+  exists s before lastR,
+    run ops = Some s /\ appended ops = before ++ lastR /\
+    match newest (sdir s) with
+    | None => before ++ lastR = []
+    | Some (_, bs) => bs = frames lastR
+    end /\
+    forall k from,
+      replay (truncate_newest k (sdir s)) from =
+      (keep from (before ++ fit k lastR), Done (last_seq (keep from (before ++ fit k lastR)) from)).
+Proof. exact torn_all. Qed.
+
+Theorem C15_fit_longest : forall R k,
+  exists T, R = fit k R ++ T /\ nlen (frames (fit k R)) <= k /\
+            match T with [] => True | r :: _ => k < nlen (frames (fit k R)) + nlen (frame r) end.
+Proof. exact fit_longest. Qed.
+
+(* any single byte of any file replaced by any other byte value, outside the recorded class
+   (positions inside a record's 8-byte sequence field, which the checksum does not cover):
+   replay delivers only records of the intact log that precede the damaged one, unaltered —
+   the damaged record and everything after it is never delivered (the result is an error, or
+   the log ends there when the damage makes the newest file look cut short) *)
+Theorem C15_corrupt : forall ops, ops_ok ops ->
+  exists s, run ops = Some s /\
+    forall name bs pos v from,
+      In (name, bs) (sdir s) -> pos < nlen bs -> v < 256 -> v <> nth (N.to_nat pos) bs 0 ->
+      Known_C15 (sdir s) name pos = false ->
+      exists L' T o,
+        replay (flip_dir name pos v (sdir s)) from = (keep from L', o) /\
+        appended ops = L' ++ T /\ T <> [].
+Proof. exact corrupt_all. Qed.
+
+Ltac solve_wf :=
+  repeat match goal with
+  | |- _ /\ _ => split
+  | |- Forall _ [] => apply Forall_nil
+  | |- Forall _ (_ :: _) => apply Forall_cons
+  | |- ok_entry _ => unfold ok_entry, wf_entry
+  | |- wf_entry _ => unfold wf_entry
+  | |- wf_str _ => unfold wf_str
+  | |- wf_blob _ => unfold wf_blob
+  | |- isbyte _ => unfold isbyte
+  | |- (_ < _)%N => vm_compute; reflexivity
+  | |- (_ <= _)%Z => vm_compute; discriminate
+  | |- (_ < _)%Z => vm_compute; reflexivity
+  | |- _ = true => vm_compute; reflexivity
+  end.
+
+(* the recorded finding (class seq-field-flip): inside the class the conclusion fails *)
+Definition witness_ops : list op := [Append (DeleteNode [116] 7)].
+
+Lemma witness_ok : ops_ok witness_ops.
+Proof.
+  unfold ops_ok, witness_ops. split; [reflexivity|]. cbn [entries_of flat_map op_entries app]. solve_wf.
+Qed.
+
+Definition witness_state : state :=
+  Eval vm_compute in (match run witness_ops with Some s => s | None => init end).
+Definition witness_bytes : bytes :=
+  Eval vm_compute in (frame (mk_record 1 (DeleteNode [116] 7))).
+
+Theorem C15_refuted :
+  exists ops s name bs pos v,
+    ops_ok ops /\ run ops = Some s /\ In (name, bs) (sdir s) /\ pos < nlen bs /\ v < 256 /\
+    v <> nth (N.to_nat pos) bs 0 /\ Known_C15 (sdir s) name pos = true /\
+    ~ (exists L' T o, replay (flip_dir name pos v (sdir s)) 0 = (keep 0 L', o) /\
+                      appended ops = L' ++ T /\ T <> []).
+Proof.
+  exists witness_ops, witness_state, 1, witness_bytes, 4, 3.
+  split; [exact witness_ok|]. split; [vm_compute; reflexivity|].
+  split; [left; vm_compute; reflexivity|]. split; [vm_compute; reflexivity|].
+  split; [vm_compute; reflexivity|]. split; [vm_compute; discriminate|].
+  split; [vm_compute; reflexivity|].
+  intros (L' & T & o & Hr & Ha & Ht). rewrite keep_zero in Hr. vm_compute in Hr. vm_compute in Ha.
+  inversion Hr as [[HL Ho]]. subst L'. destruct T; [congruence|]. cbn [app] in Ha. inversion Ha.
+Qed.
+
+(* ---- non-vacuity ---- *)
+Definition sample_ops : list op :=
+  [Append (CreateNode [100;101] 1 [[80];[195;159]] [1;2;3]); Append (DeleteEdge [] 9); Reopen;
+   Append (UpdateNodeProps [116] 18446744073709551615 [] 5); Checkpoint 3 (-7)%Z; Reopen; Reopen;
+   Append (CreateEdge [116] 1 2 3 [75] [0])].
+
+Lemma sample_ok : ops_ok sample_ops.
+Proof.
+  unfold ops_ok, sample_ops. split; [reflexivity|]. cbn [entries_of flat_map op_entries app]. solve_wf.
+Qed.
+
+(* the hypotheses of C15_replay_all / C15_torn / C15_corrupt hold for a history with two
+   reopens and a checkpoint that produces three files; sequence numbers 1..5 across them *)
+Example C15_nonvacuous :
+  ops_ok sample_ops /\
+  match run sample_ops with
+  | Some s => map fst (sdir s) = [1; 3; 5] /\ map seq (fst (replay (sdir s) 0)) = [1; 2; 3; 4; 5] /\
+              snd (replay (sdir s) 0) = Done 5 /\
+              (* cut 10 bytes into the only record of the newest file: records 1..4 remain *)
+              map seq (fst (replay (truncate_newest 10 (sdir s)) 0)) = [1; 2; 3; 4] /\
+              snd (replay (truncate_newest 10 (sdir s)) 0) = Done 4 /\
+              (* a changed payload byte in the second file (not in the recorded class) *)
+              Known_C15 (sdir s) 3 20 = false /\
+              map seq (fst (replay (flip_dir 3 20 255 (sdir s)) 0)) = [1; 2] /\
+              snd (replay (flip_dir 3 20 255 (sdir s)) 0) = Failed
+  | None => False
+  end.
+Proof. split; [exact sample_ok|]. vm_compute. repeat split; reflexivity. Qed.
+
+Example C15_codec_nonvacuous :
+  valid_rec (mk_record 7 (CreateNode [100;101] 1 [[80];[195;159]] [1;2;3])).
+Proof.
+  apply mk_record_valid; solve_wf.
+Qed.
+
+Print Assumptions C15_codec.
+Print Assumptions C15_replay_all.
+Print Assumptions C15_replay_entries.
+Print Assumptions C15_seq_strict.
+Print Assumptions C15_torn.
+Print Assumptions C15_fit_longest.
+Print Assumptions C15_corrupt.
+Print Assumptions C15_refuted.
